@@ -264,7 +264,11 @@ func gen(r *hx.Rng, n int, tier string) []string {
 					case 0:
 						payload = nil
 					case 1:
-						payload[0] = 0xff
+						if len(payload) == 0 {
+							payload = []byte{0xff, 0x00}
+						} else {
+							payload[0] = 0xff
+						}
 					case 2:
 						payload = append(payload, byte(r.Intn(6)))
 					default:
